@@ -4,7 +4,7 @@
    order, decoded - so the chain bytes in -> frames (C03) -> packets (C02) -> Context steps -> bytes out (C06/C08)
    is closed inside the model. *)
 From Poster Require Import Model.Sim Spec.Frames Proofs.BytesP Proofs.ClientP Proofs.QuotaP Proofs.HandshakeP Proofs.ResumeP Proofs.WireP
-  Proofs.FramingP Proofs.FramingMainP Proofs.SimInvP Proofs.SettleP Proofs.RefineP Proofs.OwnP.
+  Proofs.FramingP Proofs.FramingMainP Proofs.SimInvP Proofs.SettleP Proofs.RefineP Proofs.OwnP Proofs.StreamP.
 Arguments N.add : simpl never. Arguments N.mul : simpl never. Arguments N.sub : simpl never.
 Arguments N.ltb : simpl never. Arguments N.leb : simpl never. Arguments N.eqb : simpl never.
 
@@ -148,4 +148,124 @@ Proof.
   intros Hd He. cbv zeta. split; [reflexivity|]. split; [reflexivity|]. split; [reflexivity|]. split.
   - intros a i ph Hin. destruct (reset_session_sum (set_cph s CIdle)) as (_ & _ & _ & _ & _ & Hn). apply (Hn a i ph). exact Hin.
   - unfold start_run. cbv zeta. cbn [c set_cph]. rewrite Hd, He. cbn [retransmit]. reflexivity.
+Qed.
+
+(* ---- the accounting of C10 carries over to a whole poll of the Context task ------------------------------------------------ *)
+Lemma conf_run_is_run_q evs : forall s g s' g', conf_run s g evs = Some (s', g') -> s' = run_q s evs.
+Proof.
+  induction evs as [|e evs IH]; intros s g s' g' H; cbn [conf_run run_q] in *; [inversion H; reflexivity|].
+  destruct e as [m|p]; [apply IH in H; exact H|].
+  destruct (completes p) as [k|]; [destruct (kmem k g); [apply IH in H; exact H|discriminate]|apply IH in H; exact H].
+Qed.
+Theorem quota_after_poll s g s' g' : cph s = CRunning -> hold s = false -> ctx_alive s = true -> wbudget s = None ->
+  quota (c s) + lenN g = rmax (c s) ->
+  conf_run s g (trace (settle_fuel s) s) = Some (s', g') ->
+  quota (c (settle s)) + lenN g' = rmax (c (settle s)) /\ rmax (c (settle s)) = rmax (c s) /\ lenN g' <= rmax (c s).
+Proof.
+  intros Hc Hh Ha Hb Hq Hr. pose proof (conf_run_is_run_q _ _ _ _ _ Hr) as E.
+  destruct (conf_run_inv _ _ _ _ _ Hb Hq Hr) as (H1 & H2 & _).
+  assert (Hcs : c (settle s) = c s').
+  { unfold settle. rewrite Hh, Ha. cbn [orb negb]. destruct (settle_loop_trace (settle_fuel s) s Hc) as [Hv _].
+    unfold view in Hv. rewrite E. congruence. }
+  rewrite Hcs. split; [exact H1|]. split; [exact H2|]. rewrite <- H2. lia.
+Qed.
+
+(* and the retransmit queue of C17 *)
+Theorem retx_after_poll s : cph s = CRunning -> hold s = false -> ctx_alive s = true -> wbudget s = None ->
+  retx (c (settle s)) = unfinished s (retx (c s)) (trace (settle_fuel s) s).
+Proof.
+  intros Hc Hh Ha Hb. destruct (retx_history (trace (settle_fuel s) s) s Hb) as [H1 _]. rewrite <- H1.
+  unfold settle. rewrite Hh, Ha. cbn [orb negb]. destruct (settle_loop_trace (settle_fuel s) s Hc) as [Hv _].
+  unfold view in Hv. f_equal. congruence.
+Qed.
+
+(* ---- C07 / C09 over mixed histories: requests of other operations in between change nothing for a stream ------------------- *)
+Lemma view3_complete s i ph v : view3 (complete s i ph v) = view3 s.
+Proof. unfold complete. destruct (alookup i (ops s)); reflexivity. Qed.
+Lemma view3_cancel s i ph : view3 (cancel s i ph) = view3 s.
+Proof. unfold cancel. destruct (alookup i (ops s)); reflexivity. Qed.
+Lemma alookup_app_some {A} k (a : A) l l' : alookup k l = Some a -> alookup k (l ++ l') = Some a.
+Proof. induction l as [|[k' a'] l IH]; cbn [alookup app]; [discriminate|]. destruct (k' =? k); [auto|exact IH]. Qed.
+
+Lemma handle_message_stream s m sid j st : stream_state s sid j st -> sub_inj s sid j -> fst (msg_op m) <> j ->
+  let s' := fst (handle_message s m) in
+  stream_state s' sid j st /\ sub_inj s' sid j /\ await_rel (c s') = await_rel (c s).
+Proof.
+  intros Hst Hinj Hne. cbv zeta.
+  assert (Hsame : forall s', view3 s' = view3 s -> stream_state s' sid j st /\ sub_inj s' sid j /\ await_rel (c s') = await_rel (c s)).
+  { intros s' Hv. split; [eapply stream_state_view; eassumption|]. split; [eapply sub_inj_view; eassumption|].
+    unfold view3 in Hv. congruence. }
+  unfold handle_message. cbv zeta. destruct m as [i p|i ph a p|i a sid' p]; cbn [msg_op fst] in Hne.
+  - destruct (negb (size_ok (c s) p)); cbn [fst]; [apply Hsame; apply view3_complete|].
+    destruct (negb (snd (write s p))); cbn [fst]; apply Hsame; rewrite ?view3_cancel, ?view3_complete, view3_write; reflexivity.
+  - destruct (negb (size_ok (c s) p)); cbn [fst]; [apply Hsame; apply view3_complete|].
+    destruct (ptype_of p =? 3).
+    + destruct (quota (c s) =? 0); cbn [fst]; [apply Hsame; apply view3_complete|].
+      destruct (negb (snd (write _ p))); cbn [fst]; apply Hsame.
+      * rewrite view3_cancel, view3_write. reflexivity.
+      * match goal with |- view3 (set_c ?x _) = _ => change (view3 (set_c x _)) with (view3 x) end. rewrite view3_write. reflexivity.
+    + destruct (ptype_of p =? 6); destruct (negb (snd (write s p))); cbn [fst]; apply Hsame;
+        try (rewrite view3_cancel, view3_write; reflexivity);
+        match goal with |- view3 (set_c ?x _) = _ => change (view3 (set_c x _)) with (view3 x) end; rewrite view3_write; reflexivity.
+  - destruct Hst as (H1 & H2 & H3).
+    destruct (negb (size_ok (c s) p)); cbn [fst].
+    + (* refused: the sender of stream i (not j) is dropped *)
+      pose proof (view3_complete s i 1 CTooBig) as Hv1. remember (complete s i 1 CTooBig) as s1 eqn:Es1. clear Es1.
+      assert (V1 : subs (c s1) = subs (c s)) by (unfold view3 in Hv1; congruence).
+      assert (V2 : streams s1 = streams s) by (unfold view3 in Hv1; congruence).
+      assert (V3 : await_rel (c s1) = await_rel (c s)) by (unfold view3 in Hv1; congruence).
+      unfold close_stream_sender. destruct (alookup i (streams s1)) as [sti|] eqn:Ei.
+      * split; [|split].
+        -- unfold stream_state. cbn [c set_streams streams]. rewrite V1, V2. split; [exact H1|]. split; [|exact H3].
+           rewrite alookup_aset_other by (intros E; apply Hne; symmetry; exact E). exact H2.
+        -- unfold sub_inj. cbn [c set_streams]. rewrite V1. exact Hinj.
+        -- cbn [c set_streams]. exact V3.
+      * split; [|split]; [unfold stream_state; rewrite V1, V2; auto|unfold sub_inj; rewrite V1; exact Hinj|exact V3].
+    + match goal with |- context [fst (write ?x p)] => set (s1 := x) end.
+      pose proof (view3_write s1 p) as Hv. unfold view3 in Hv. injection Hv as V1 V2 V3.
+      split; [|split].
+      * unfold stream_state. rewrite V1, V2. cbn [s1 c set_c subs with_subs with_awaiting streams].
+        split; [apply alookup_app_some; exact H1|]. auto.
+      * unfold sub_inj. rewrite V1. cbn [s1 c set_c subs with_subs with_awaiting]. intros sid0 j0 Hin Hj.
+        apply in_app_or in Hin. destruct Hin as [Hin|[He|[]]]; [apply (Hinj sid0 j0 Hin Hj)|]. inversion He; subst. contradiction.
+      * rewrite V3. reflexivity.
+Qed.
+
+Theorem stream_history_mixed evs : forall s sid j st, stream_state s sid j st -> sub_inj s sid j -> wbudget s = None ->
+  (forall m, In m (msgs evs) -> fst (msg_op m) <> j) ->
+  let s' := run_q s evs in
+  stream_state s' sid j (mkst (st_buf st ++ spec_deliveries (await_rel (c s)) sid (pkts evs)) (st_sender st) true (st_taken st)) /\
+  await_rel (c s') = fold_left spec_aw_step (pkts evs) (await_rel (c s)).
+Proof.
+  induction evs as [|e evs IH]; intros s sid j st Hst Hinj Hb Hm; cbn [run_q pkts flat_map app].
+  - cbn [spec_deliveries fold_left]. rewrite app_nil_r. split; [|reflexivity]. destruct Hst as [H1 [H2 H3]]. repeat split; auto.
+    rewrite H2. destruct st; cbn in *; subst; reflexivity.
+  - destruct e as [m|p]; cbn [qstep].
+    + destruct (handle_message_stream s m sid j st Hst Hinj) as (A1 & A2 & A3).
+      { apply Hm. cbn [msgs flat_map app]. left. reflexivity. }
+      cbn [app]. fold (pkts evs). rewrite <- A3. apply IH; [exact A1|exact A2|apply (qstep_wb_none s (QMsg m) Hb)|].
+      intros m' Hin. apply Hm. cbn [msgs flat_map app]. right. exact Hin.
+    + destruct (handle_packet_stream s p sid j st Hst Hinj Hb) as [A1 [A2 [A3 A4]]].
+      assert (Hm' : forall m, In m (msgs evs) -> fst (msg_op m) <> j) by (intros m' Hin; apply Hm; exact Hin).
+      specialize (IH (fst (handle_packet s p)) sid j _ A1 A2 A4 Hm'). cbv zeta in IH.
+      cbn [st_buf st_sender st_taken] in IH. cbn [app fold_left]. fold (pkts evs). rewrite spec_deliveries_cons.
+      rewrite A3 in IH. rewrite <- app_assoc in IH. exact IH.
+Qed.
+
+Theorem stream_after_poll s sid j st : cph s = CRunning -> hold s = false -> ctx_alive s = true -> wbudget s = None ->
+  stream_state s sid j st -> sub_inj s sid j -> (forall m, In m (msgq s) -> fst (msg_op m) <> j) ->
+  let evs := trace (settle_fuel s) s in
+  stream_state (settle s) sid j
+    (mkst (st_buf st ++ spec_deliveries (await_rel (c s)) sid (pkts evs)) (st_sender st) true (st_taken st)) /\
+  await_rel (c (settle s)) = fold_left spec_aw_step (pkts evs) (await_rel (c s)).
+Proof.
+  intros Hc Hh Ha Hb Hst Hinj Hq. cbv zeta.
+  destruct (settle_loop_trace (settle_fuel s) s Hc) as [Hv (rest & Hm & _)].
+  assert (Hmm : forall m, In m (msgs (trace (settle_fuel s) s)) -> fst (msg_op m) <> j).
+  { intros m Hin. apply Hq. rewrite Hm. apply in_or_app. left. exact Hin. }
+  destruct (stream_history_mixed (trace (settle_fuel s) s) s sid j st Hst Hinj Hb Hmm) as [H1 H2]. cbv zeta in H1, H2.
+  unfold settle. rewrite Hh, Ha. cbn [orb negb]. unfold view in Hv.
+  assert (Ec : c (settle_loop (settle_fuel s) s) = c (run_q s (trace (settle_fuel s) s))) by congruence.
+  assert (Es : streams (settle_loop (settle_fuel s) s) = streams (run_q s (trace (settle_fuel s) s))) by congruence.
+  split; [|rewrite Ec; exact H2]. unfold stream_state in *. rewrite Ec, Es. exact H1.
 Qed.
